@@ -73,13 +73,32 @@ class ConsultCounting:
         return f"ConsultCounting({self.inner})"
 
 
+EVAL_LOG = []  # module-level state used by objectives of 'global' worlds (a user's evaluation log)
+
+
 def build(desc):
     box = box_array(desc.get("box", "B_asym"))
     mx = desc.get("maximize", False)
     levels = []
     objs = []
+    shared = desc.get("shared_counter")
+    shared_co = CountingObjective(desc["obj"], box, mx, 0) if shared == "callable" else None
     for i, e in enumerate(desc["engines"]):
-        if desc.get("lambda_obj"):
+        if shared == "callable":
+            # ONE stateful callable (it counts its calls) wrapped by one FunctionProblem per level
+            objs.append(shared_co)
+            p = FunctionProblem(shared_co, bounds=box.copy(), maximize=mx)
+        elif shared == "global":
+            # an objective defined inside a function (pickled by value) that writes to module-level state
+            f = make_objective(desc["obj"], box, mx)
+
+            def fun(x, _f=f):
+                EVAL_LOG.append(1)
+                return _f(x)
+
+            objs.append(EVAL_LOG)
+            p = FunctionProblem(fun, bounds=box.copy(), maximize=mx)
+        elif desc.get("lambda_obj"):
             f = make_objective(desc["obj"], box, mx)
             cnt = [0]
 
@@ -101,11 +120,22 @@ def build(desc):
         gsc = ConsultCounting(gsc)
     sm = make_sprout(desc["sprout"], None, box)
     cfg = TreeConfig(levels, gsc, sm, options={"random_seed": desc["seed"], "hibernation": desc.get("hib", False)})
-    return DemeTree(cfg), objs
+    t = DemeTree(cfg)
+    if shared == "callable":
+        t._c19_shared = True
+    return t, objs
 
 
 def calls_of(tree):
     out = []
+    f0 = tree.config.levels[0].problem
+    while not isinstance(f0, FunctionProblem):
+        f0 = f0._inner
+    f0 = f0.fitness_function
+    if getattr(f0, "__name__", "") == "fun" and "EVAL_LOG" in getattr(f0, "__code__", f0).co_names:
+        return [len(EVAL_LOG)]  # what the user sees: the module-level log
+    if isinstance(f0, CountingObjective) and getattr(tree, "_c19_shared", False):
+        return [f0.calls]  # what the user sees: the one callable, reached through the root level
     for lc in tree.config.levels:
         p = lc.problem
         while not isinstance(p, FunctionProblem):
@@ -226,7 +256,10 @@ def run_world(res, desc, tmpdir):
                 d_loaded = tree_digest(loaded)
                 np.random.set_state(st[0])
                 random.setstate(st[1])
+                c_before = calls_of(loaded)
                 tree.run_step()
+                # (a module-level log is written by the live tree as well: not part of the restored tree's account)
+                base_calls = [b + (a1 - a0) for b, a0, a1 in zip(base_calls, c_before, calls_of(loaded))]
                 live_stepped = True
                 if tree_digest(tree) != d_loaded:
                     res.add_violation(ID, "C19/continuation-differs", f"from identical generator states the tree restored from the snapshot at boundary {k} of {desc['engines']} "
@@ -240,7 +273,16 @@ def run_world(res, desc, tmpdir):
                 invariants(res, loaded, L, desc, where, rep)
                 cur = calls_of(loaded)
                 lv = [sum(d.n_evaluations for d in lvl) for lvl in loaded.levels]
-                for i in range(len(lv)):
+                if len(cur) == 1 and len(lv) > 1:
+                    # one counter for all levels (a shared callable / a module-level log)
+                    res.flags["continued with one evaluation counter shared by all levels"] += 1
+                    if sum(lv) - sum(base_levels) != cur[0] - base_calls[0]:
+                        res.add_violation(ID, "C19/continued:accounting-shared-counter", f"{where}: the tree's counters grew by {sum(lv) - sum(base_levels)}, the user's own counter "
+                                          f"(shared callable / module-level log) by {cur[0] - base_calls[0]} since the restore", {}, rep)
+                    lv_cmp = []
+                else:
+                    lv_cmp = range(len(lv))
+                for i in lv_cmp:
                     if lv[i] - base_levels[i] != cur[i] - base_calls[i]:
                         res.add_violation(ID, "C19/continued:accounting", f"{where}: level {i} counters grew by {lv[i] - base_levels[i]}, objective invoked {cur[i] - base_calls[i]} times since the restore", {}, rep)
                 if loaded.n_evaluations != sum(lv):
@@ -325,6 +367,8 @@ def worlds(tier, seed):
                     d["gsc"] = {"kind": "evals", "n": 70}
                 if k % 3 == 1:
                     d["stateful_gsc"] = True
+                if k % 7 in (2, 5) and len(eng) >= 2:
+                    d["shared_counter"] = ("callable", "global")[(k % 7) // 5]
                 out.append(d)
     # three levels, two long-lived middle demes that sprout alternately: the ORDER of the demes on a level is part of the tree
     for j, eng in enumerate([("SEA", "DE", "SEA"), ("DE", "SEA", "SHADE"), ("LHS", "GA", "DEd")]):
@@ -357,7 +401,8 @@ def finish(res, tier):
     if len(res.nontrivial) < 60:
         raise Vacuous("few non-trivial snapshot points")
     for f in ("snapshot with a live CMA-ES deme", "snapshot with a hibernating deme", "snapshot at the final boundary", "restored and live tree made the same next metaepoch", "snapshot with interleaved level-2 demes",
-              "snapshot of a tree whose stop condition has internal state", "snapshot loaded a second time after the first copy ran on"):
+              "snapshot of a tree whose stop condition has internal state", "snapshot loaded a second time after the first copy ran on",
+              "continued with one evaluation counter shared by all levels"):
         if res.flags[f] < 5:
             raise Vacuous(f"'{f}' seen {res.flags[f]} times")
     return {"snapshot_points": res.executions, "exhaustive": True}
